@@ -36,7 +36,9 @@ def st_two_names(budget):
 
 def _octets(maxlen):
     maxlen = max(0, maxlen)
-    return st.one_of(name(maxlen).map(lambda s: s.encode()), st.binary(max_size=min(maxlen, 24)))
+    # names that contain the octets of the reserved-message marker itself
+    marker = st.sampled_from([b"cfdp", b"/cfdp/log", b"a.cfdp", b"cfdpcfdp", b"\x00cfdp\x10"]).filter(lambda b: len(b) <= maxlen) if maxlen >= 4 else st.nothing()
+    return st.one_of(name(maxlen).map(lambda s: s.encode()), st.binary(max_size=min(maxlen, 24)), marker)
 
 
 def st_msg():
@@ -254,6 +256,8 @@ def _cls(m):
                 out.append("empty name")
             if n > 100:
                 out.append("name > 100")
+            if "63666470" in m[f]:
+                out.append("name contains the marker octets")
     if k == "put_request" and (len(m["src"]) + len(m["dst"])) // 2 == 255 - 5 - (1 + m["dest_w"]) - 2:
         out.append("tlv full")
     if k == "list_req" and (len(m["path"]) + len(m["file"])) // 2 == 248:
@@ -343,7 +347,7 @@ CLAUSES = [
         check=check_msg,
         nontrivial=_nt,
         classify=_cls,
-        required=list(KINDS) + ["dest width 8", "dest width 2", "orig widths 8/8", "orig widths 1/8", "empty name", "name > 100", "tlv full"],
+        required=list(KINDS) + ["dest width 8", "dest width 2", "orig widths 8/8", "orig widths 1/8", "empty name", "name > 100", "tlv full", "name contains the marker octets"],
         n={"quick": 1500, "thorough": 12000},
     ),
     Clause(
